@@ -156,6 +156,47 @@ func init() {
 		}
 	}
 
+	// ---- sync/atomic.Value: struct{ v any }, accessed through unsafe words in the library ----
+	avSlot := func(args []Value) Struct {
+		p, ok := args[0].(*Value)
+		if !ok || p == nil {
+			panic(unsupported("atomic.Value receiver"))
+		}
+		st, ok := (*p).(Struct)
+		if !ok || len(st) != 1 {
+			panic(unsupported("atomic.Value layout"))
+		}
+		return st
+	}
+	avGet := func(st Struct) Value {
+		if iv, ok := st[0].(Iface); ok {
+			return iv
+		}
+		return Iface{}
+	}
+	reg(func(it *Interp, fn *ssa.Function, args []Value, site ssa.Instruction) Value {
+		return avGet(avSlot(args))
+	}, "(*sync/atomic.Value).Load")
+	reg(func(it *Interp, fn *ssa.Function, args []Value, site ssa.Instruction) Value {
+		st := avSlot(args)
+		iv, ok := args[1].(Iface)
+		if !ok || iv.t == nil {
+			panic(unsupported("atomic.Value.Store of a nil value"))
+		}
+		st[0] = iv
+		return nil
+	}, "(*sync/atomic.Value).Store")
+	reg(func(it *Interp, fn *ssa.Function, args []Value, site ssa.Instruction) Value {
+		st := avSlot(args)
+		iv, ok := args[1].(Iface)
+		if !ok || iv.t == nil {
+			panic(unsupported("atomic.Value.Swap of a nil value"))
+		}
+		old := avGet(st)
+		st[0] = iv
+		return old
+	}, "(*sync/atomic.Value).Swap")
+
 	// ---- runtime / os ----
 	reg(func(it *Interp, fn *ssa.Function, args []Value, site ssa.Instruction) Value { return uint64(16) }, "runtime.NumCPU", "runtime.GOMAXPROCS")
 	reg(func(it *Interp, fn *ssa.Function, args []Value, site ssa.Instruction) Value { return uint64(1) }, "runtime.NumGoroutine")
